@@ -106,6 +106,10 @@ func TestC18_P_RecursiveImport(t *testing.T) {
 			for i := 0; i < n; i++ {
 				d.Kids[fmt.Sprintf("%04d-%s", i, strings.Repeat("n", 195))] = &fsNode{Kind: fsFile, Data: []byte{byte(i)}}
 			}
+			// two or three names whose digests share 56..59 bits: the auto-sharded directory (fanout 256) needs its last level
+			for _, nm := range craftGroupFS(rapid.Uint64().Draw(t, "deepbase"), rapid.IntRange(56, 59).Draw(t, "deepbits"), rapid.IntRange(2, 3).Draw(t, "deepk")) {
+				d.Kids[nm] = &fsNode{Kind: fsFile, Data: []byte(nm[:3])}
+			}
 			root.Kids["bigdir"] = d
 			feats["dir~threshold"] = true
 		}
@@ -118,6 +122,23 @@ func TestC18_P_RecursiveImport(t *testing.T) {
 			must(t, "BuildUnixFSRecursive", func() { link, _, berr = builder.BuildUnixFSRecursive(p, ls) })
 			if berr == nil && link != nil {
 				must(t, "read back", func() { cerr = c18Compare(st, ls, cidOf(link), root, "") })
+			}
+			if berr == nil && cerr == nil && link != nil {
+				// the same LinkSystem value re-pointed at another store: the second import must land, completely, in that store
+				st2 := NewStore()
+				ls.StorageWriteOpener, ls.StorageReadOpener = st2.openWrite, st2.openRead
+				var link2 datamodel.Link
+				must(t, "second import", func() { link2, _, berr = builder.BuildUnixFSRecursive(p, ls) })
+				if berr == nil {
+					if link2 == nil || cidOf(link2) != cidOf(link) {
+						cerr = fmt.Errorf("second import of the same tree returned %v, first %v", link2, link)
+					} else {
+						must(t, "read back second import", func() { cerr = c18Compare(st2, ls, cidOf(link2), root, "") })
+						if cerr != nil {
+							cerr = fmt.Errorf("second import into a re-pointed link system: %w", cerr)
+						}
+					}
+				}
 			}
 		})
 		if err != nil {
@@ -223,4 +244,35 @@ func TestC18_R_Basics(t *testing.T) {
 			t.Fatalf("C18 basics: FIFO imported as %v", l)
 		}
 	})
+}
+
+// An auto-sharded directory (fanout 256) that needs its deepest level: two file names whose digests share 56 and 59 bits.
+func TestC18_R_AutoShardedDeepNames(t *testing.T) {
+	for _, shared := range []int{56, 59} {
+		d := &fsNode{Kind: fsDir, Kids: map[string]*fsNode{}}
+		for i := 0; i < 1200; i++ {
+			d.Kids[fmt.Sprintf("%04d-%s", i, strings.Repeat("n", 195))] = &fsNode{Kind: fsFile, Data: []byte{byte(i)}}
+		}
+		deep := craftGroupFS(0x0badc0de0badc0de, shared, 2)
+		if len(deep) != 2 {
+			t.Fatalf("harness: could not craft filesystem-safe names")
+		}
+		for _, nm := range deep {
+			d.Kids[nm] = &fsNode{Kind: fsFile, Data: []byte("deep")}
+		}
+		st := NewStore()
+		ls := st.LinkSystem()
+		err := withFSTree(d, func(p string) {
+			l, _, err := builder.BuildUnixFSRecursive(p, ls)
+			if err != nil {
+				t.Fatalf("C18: importing a large directory with two names sharing %d digest bits: %v", shared, err)
+			}
+			if err := c18Compare(st, ls, cidOf(l), d, ""); err != nil {
+				t.Fatalf("C18 deep names (%d bits): %v", shared, err)
+			}
+		})
+		if err != nil {
+			t.Fatal(err)
+		}
+	}
 }
